@@ -32,13 +32,32 @@ structure TDefects where
   /-- `Check` tests the result directive (unlocated "expected …" error) before it looks at the located
       error recorded during the visit (repaired in /repo by 76735a9) -/
   expectFirst : Bool
+  /-- `filter` / `map` report the static type `[]T` (element type of the collection / result type of
+      the closure) although the VM always builds `[]interface{}` -/
+  staticSliceOf : Bool
+  /-- a closure whose body has the nil type (`map(xs, {nil})`) reaches `reflect.FuncOf` with a nil
+      result type, which panics -/
+  closureNilPanic : Bool
+  /-- `a[f:t]` is accepted for every indexable `a`, maps included (the VM cannot slice a map) -/
+  sliceOfMap : Bool
+  /-- `x in m` is accepted for a map `m` whatever the type of `x` (the VM's `MapIndex` needs a key
+      assignable to the map's key type) -/
+  inMapAnyKey : Bool
+  /-- a computed key `(e)` of a map literal may have any type (the VM asserts it to be a string) -/
+  mapKeyUnchecked : Bool
   deriving DecidableEq, Repr
 
 /-- the pinned snapshot -/
-def TDefects.asWas : TDefects := ⟨true, true, true, true⟩
-/-- /repo's current HEAD -/
-def TDefects.asIs : TDefects := ⟨true, true, true, false⟩
-def TDefects.repaired : TDefects := ⟨false, false, false, false⟩
+def TDefects.asWas : TDefects := ⟨true, true, true, true, true, true, true, true, true⟩
+/-- /repo's current HEAD: after the `fix:` commits 76735a9 (located error first), b6f8e35 (`AsBool` on the
+nil type), 6162013 (numeric-only literal retyping), 106fb38 (closure with a nil-typed body).  The loose
+index rule and the static slice types of `filter`/`map` are pinned by /repo's own tests and remain. -/
+def TDefects.asIs : TDefects := ⟨false, true, false, false, true, false, true, true, true⟩
+def TDefects.repaired : TDefects := ⟨false, false, false, false, false, false, false, false, false⟩
+def TDefects.safeFix : TDefects := TDefects.asIs
+/-- … plus the three further checker patches proposed in /tmp/w/types/c03-fixes-2.patch (slice of a map,
+`in` with a key of the wrong type, computed map-literal key of a non-string type) -/
+def TDefects.safeFix2 : TDefects := ⟨false, true, false, false, true, false, false, false, false⟩
 
 inductive Expect where
   | none | bool | int64 | float64
@@ -57,7 +76,7 @@ inductive CheckErrClass where
   | mismatchMatches | noField | badIndex | notIndexable | badSliceIndex | notSliceable
   | unknownFunc | noMethod | noResult | manyResults | tooMany | notEnough | badArgument
   | badLen | notArray | closureNotBool | badClosure | unknownBuiltin | pointerOutside | pointerNotArray
-  | nonBoolCond | expected
+  | nonBoolCond | expected | badMapKey
   deriving DecidableEq, Repr
 
 def CheckErrClass.name : CheckErrClass → String
@@ -71,7 +90,7 @@ def CheckErrClass.name : CheckErrClass → String
   | .badArgument => "bad-argument" | .badLen => "bad-len" | .notArray => "not-array"
   | .closureNotBool => "closure-not-bool" | .badClosure => "bad-closure" | .unknownBuiltin => "unknown-builtin"
   | .pointerOutside => "pointer-outside" | .pointerNotArray => "pointer-not-array"
-  | .nonBoolCond => "non-bool-cond" | .expected => "expected"
+  | .nonBoolCond => "non-bool-cond" | .expected => "expected" | .badMapKey => "bad-map-key"
 
 structure CState where
   err : Option (Loc × CheckErrClass) := none
@@ -245,55 +264,185 @@ def isIndexOk (dt : TDefects) (container i : OTy) : Bool :=
       | _ => isIntegerT i
     | none => false
 
-/-! ### the visitor -/
+/-! ### the local typing rules
 
-/-- the type of a binary operator application (`BinaryNode` after both operands are visited) -/
-def binaryType (op : String) (l r : OTy) (loc : Loc) (st : CState) : OTy × CState :=
-  let bad : OTy × CState := (ifaceTy, st.fail loc .mismatchBinary)
+Each clause of the visitor is: visit the children, then apply a *local rule* to their types.  The rules
+are pure (`Except CheckErrClass OTy`: the type, or the class of the error `v.error` records); the visitor
+below threads the state through them (`orFail`), and the compositional reference rules
+(`Types/HasType.lean`) apply the very same rules without any state. -/
+
+abbrev Rule := Except CheckErrClass OTy
+
+/-- `return v.error(node, …)` when the rule fails (the result type is then `interface{}`) -/
+def orFail (r : Rule) (loc : Loc) (st : CState) : OTy × CState :=
+  match r with
+  | .ok t => (t, st)
+  | .error c => (ifaceTy, st.fail loc c)
+
+def defaultOr (cfg : CheckCfg) : OTy := match cfg.defaultType with | some d => some d | none => ifaceTy
+
+/-- `IdentifierNode` -/
+def identRule (cfg : CheckCfg) (name : String) (nilsafe : Bool) : Rule :=
+  match cfg.types with
+  | none => .ok ifaceTy
+  | some tbl =>
+    match tbl.get? name with
+    | some g =>
+      if g.ambiguous then .error .ambiguousIdent
+      else if g.method && !cfg.dn.methodAsValue then .error .methodValue
+      else .ok g.ty
+    | none =>
+      if !cfg.strict then .ok (defaultOr cfg)
+      else if !nilsafe then .error .unknownName
+      else .ok none
+
+/-- `UnaryNode` -/
+def unaryRule (op : String) (t : OTy) : Rule :=
+  if op == "!" || op == "not" then
+    if isBoolT t then .ok boolTy else .error .mismatchUnary
+  else if op == "+" || op == "-" then
+    if isNumberT t then .ok t else .error .mismatchUnary
+  else .error .unknownOperator
+
+/-- can a value of type `l` be looked up in the map (or interface) `r`? -/
+def mapKeyFits (l r : OTy) : Bool :=
+  match r.deref with
+  | some m =>
+    if m.kind == .map then
+      isInterfaceT l || (match l, m.mapKey? with | some lt, some k => assignableTo lt k | _, _ => false)
+    else true
+  | none => false
+
+/-- `BinaryNode` (no operator overloading) -/
+def binaryRule (dt : TDefects) (op : String) (l r : OTy) : Rule :=
+  let bad : Rule := .error .mismatchBinary
   if op == "==" || op == "!=" then
-    if (isNumberT l && isNumberT r) || isComparableT l r then (boolTy, st) else bad
+    if (isNumberT l && isNumberT r) || isComparableT l r then .ok boolTy else bad
   else if op == "or" || op == "||" || op == "and" || op == "&&" then
-    if isBoolT l && isBoolT r then (boolTy, st) else bad
+    if isBoolT l && isBoolT r then .ok boolTy else bad
   else if op == "in" || op == "not in" then
-    if (isStringT l && isStructT r) || isMapT r || isArrayT r then (boolTy, st) else bad
+    if (isStringT l && isStructT r) || (isMapT r && (dt.inMapAnyKey || mapKeyFits l r)) || isArrayT r
+    then .ok boolTy else bad
   else if op == "<" || op == ">" || op == ">=" || op == "<=" then
-    if (isNumberT l && isNumberT r) || (isStringT l && isStringT r) then (boolTy, st) else bad
+    if (isNumberT l && isNumberT r) || (isStringT l && isStringT r) then .ok boolTy else bad
   else if op == "/" || op == "-" || op == "*" then
-    if isNumberT l && isNumberT r then (combinedT l r, st) else bad
+    if isNumberT l && isNumberT r then .ok (combinedT l r) else bad
   else if op == "**" then
-    if isNumberT l && isNumberT r then (floatTy, st) else bad
+    if isNumberT l && isNumberT r then .ok floatTy else bad
   else if op == "%" then
-    if isIntegerT l && isIntegerT r then (combinedT l r, st) else bad
+    if isIntegerT l && isIntegerT r then .ok (combinedT l r) else bad
   else if op == "+" then
-    if isNumberT l && isNumberT r then (combinedT l r, st)
-    else if isStringT l && isStringT r then (stringTy, st) else bad
+    if isNumberT l && isNumberT r then .ok (combinedT l r)
+    else if isStringT l && isStringT r then .ok stringTy else bad
   else if op == "contains" || op == "startsWith" || op == "endsWith" then
-    if isStringT l && isStringT r then (boolTy, st) else bad
+    if isStringT l && isStringT r then .ok boolTy else bad
   else if op == ".." then
-    if isIntegerT l && isIntegerT r then (some (.slice (.num .int)), st) else bad
-  else (ifaceTy, st.fail loc .unknownOperator)
+    if isIntegerT l && isIntegerT r then .ok (some (.slice (.num .int))) else bad
+  else .error .unknownOperator
 
-/-- the part of `checkFunc` before the argument loop: either a result at once, or the data the loop needs -/
-inductive FuncPlan where
-  | done (r : OTy) (st : CState)
-  | args (ins : List Ty) (variadic : Bool) (numIn offset : Nat) (out : Ty)
+def matchesRule (l r : OTy) : Rule :=
+  if isStringT l && isStringT r then .ok boolTy else .error .mismatchMatches
 
-def funcPlan (fn : Ty) (method : Bool) (loc : Loc) (nargs : Nat) (st : CState) : FuncPlan :=
-  if fn.kind == .iface then .done ifaceTy st
+/-- `PropertyNode` -/
+def propRule (dn : NDefects) (t : OTy) (name : String) (nilsafe : Bool) : Rule :=
+  match fieldTypeT dn t name with
+  | some ft => .ok (some ft)
+  | none => if !nilsafe then .error .noField else .ok none
+
+/-- `IndexNode` -/
+def indexRule (dt : TDefects) (t i : OTy) : Rule :=
+  match indexTypeT t with
+  | some et => if !isIndexOk dt t i then .error .badIndex else .ok et
+  | none => .error .notIndexable
+
+def sliceable (dt : TDefects) (t : OTy) : Bool :=
+  if dt.sliceOfMap then (indexTypeT t).isSome || isStringT t else isArrayT t || isStringT t
+
+/-- the key of a map-literal pair -/
+def pairKeyRule (dt : TDefects) (kt : OTy) : Rule :=
+  if dt.mapKeyUnchecked || isStringT kt then .ok none else .error .badMapKey
+
+/-- the callable a `MethodNode` resolves to: (function type, has a receiver parameter) -/
+def methodTarget (dn : NDefects) (t : OTy) (name : String) : Option (Ty × Bool) :=
+  (methodTypeT dn t name).bind fun fm => (isFuncType (some fm.1)).map fun fn => (fn, fm.2)
+
+/-- the callable a `FunctionNode` resolves to -/
+def funcTargetC (cfg : CheckCfg) (name : String) : Option (Ty × Bool) :=
+  (cfg.types.bind fun tbl => tbl.get? name).bind fun g => (isFuncType g.ty).map fun fn => (fn, g.method)
+
+/-- the part of `checkFunc` before the argument loop: a result at once (`inl`), or the data the
+argument loop needs (`inr`: parameters, variadic, number of parameters without receiver, offset, result) -/
+def funcPlan (fn : Ty) (method : Bool) (nargs : Nat) :
+    Rule ⊕ (List Ty × Bool × Nat × Nat × Ty) :=
+  if fn.kind == .iface then .inl (.ok ifaceTy)
   else
     match fn.funcParts with
-    | none => .done ifaceTy st
+    | none => .inl (.ok ifaceTy)
     | some (ins, variadic, outs) =>
       match outs with
-      | [] => .done ifaceTy (st.fail loc .noResult)
+      | [] => .inl (.error .noResult)
       | [out] =>
         let numIn := if method then ins.length - 1 else ins.length
-        if variadic && nargs < numIn - 1 then .done ifaceTy (st.fail loc .notEnough)
-        else if !variadic && nargs > numIn then .done ifaceTy (st.fail loc .tooMany)
-        else if !variadic && nargs < numIn then .done ifaceTy (st.fail loc .notEnough)
-        else .args ins variadic numIn (if method then 1 else 0) out
-      | _ => .done ifaceTy (st.fail loc .manyResults)
+        if variadic && nargs < numIn - 1 then .inl (.error .notEnough)
+        else if !variadic && nargs > numIn then .inl (.error .tooMany)
+        else if !variadic && nargs < numIn then .inl (.error .notEnough)
+        else .inr (ins, variadic, numIn, (if method then 1 else 0), out)
+      | _ => .inl (.error .manyResults)
 
+/-- one argument of a call: the type it is checked with (integer literals take the parameter's type)
+and whether it fits; `none` = nil-typed argument, skipped -/
+def argType (dt : TDefects) (a : Node) (t0 inT : OTy) : OTy :=
+  if isIntegerOrArith a && retypeOk dt inT then inT else t0
+
+def argFits (t inT : OTy) : Bool :=
+  match t with
+  | none => true
+  | some tt => (match inT with | some it => assignableTo tt it | none => false) || tt.kind == .iface
+
+def lenRule (pt : OTy) : Rule :=
+  if isArrayT pt || isMapT pt || isStringT pt then .ok intTy else .error .badLen
+
+def isCollBuiltin (bname : String) : Bool :=
+  bname == "all" || bname == "none" || bname == "any" || bname == "one" || bname == "filter" ||
+  bname == "map" || bname == "count"
+
+/-- the result of `all none any one filter map count` from the collection's and the closure's type -/
+def collBuiltinRule (dt : TDefects) (bname : String) (coll closure : OTy) : Rule :=
+  let shape : Option Ty :=    -- the closure's result type when it has the expected shape
+    match closure with
+    | some (.func [inT] false [o]) => if inT.kind == .iface then some o else none
+    | _ => none
+  match shape with
+  | some o =>
+    if bname == "map" then .ok (if dt.staticSliceOf then some (.slice o) else arrayTy)
+    else if !isBoolT (some o) then .error .closureNotBool
+    else if bname == "filter" then
+      .ok (if isInterfaceT coll || !dt.staticSliceOf then arrayTy else
+        (match coll with | some ct => (ct.elem?.map Ty.slice) | none => none))
+    else if bname == "count" then .ok intTy
+    else .ok boolTy
+  | none => .error .badClosure
+
+/-- `PointerNode` -/
+def pointerRule (colls : List OTy) : Rule :=
+  match colls with
+  | [] => .error .pointerOutside
+  | coll :: _ =>
+    match indexTypeT coll with
+    | some et => .ok et
+    | none => .error .pointerNotArray
+
+/-- `ConditionalNode`: the result type from the branches' types -/
+def condType (t1 t2 : OTy) : OTy :=
+  match t1, t2 with
+  | none, some y => some y
+  | some x, none => some x
+  | none, none => none
+  | some x, some y => if assignableTo x y then some x else ifaceTy
+
+def closureType (bt : Ty) : OTy := some (.func [interfaceType] false [bt])
+
+/-! ### the visitor -/
 
 mutual
 
@@ -301,21 +450,8 @@ mutual
 def visit (cfg : CheckCfg) : Node → CState → Node × OTy × CState
   | .nil m, st => (setKd (.nil m) none, none, st)
   | .ident m name nilsafe, st =>
-    let n := Node.ident m name nilsafe
-    let (t, st) : OTy × CState :=
-      match cfg.types with
-      | none => (ifaceTy, st)
-      | some tbl =>
-        match tbl.get? name with
-        | some g =>
-          if g.ambiguous then (ifaceTy, st.fail m.loc .ambiguousIdent)
-          else if g.method && !cfg.dn.methodAsValue then (ifaceTy, st.fail m.loc .methodValue)
-          else (g.ty, st)
-        | none =>
-          if !cfg.strict then ((match cfg.defaultType with | some d => some d | none => ifaceTy), st)
-          else if !nilsafe then (ifaceTy, st.fail m.loc .unknownName)
-          else (none, st)
-    (setKd n t, t, st)
+    let (t, st) := orFail (identRule cfg name nilsafe) m.loc st
+    (setKd (.ident m name nilsafe) t, t, st)
   | .int m v, st => (setKd (.int m v) intTy, intTy, st)
   | .float m b, st => (setKd (.float m b) floatTy, floatTy, st)
   | .bool m b, st => (setKd (.bool m b) boolTy, boolTy, st)
@@ -325,163 +461,109 @@ def visit (cfg : CheckCfg) : Node → CState → Node × OTy × CState
     (.const m v, none, st.setPanic "undefined node type (*ast.ConstantNode)")
   | .unary m op x, st =>
     let (x', t, st) := visit cfg x st
-    let n := Node.unary m op x'
-    let (r, st) : OTy × CState :=
-      if op == "!" || op == "not" then
-        if isBoolT t then (boolTy, st) else (ifaceTy, st.fail m.loc .mismatchUnary)
-      else if op == "+" || op == "-" then
-        if isNumberT t then (t, st) else (ifaceTy, st.fail m.loc .mismatchUnary)
-      else (ifaceTy, st.fail m.loc .unknownOperator)
-    (setKd n r, r, st)
+    let (r, st) := orFail (unaryRule op t) m.loc st
+    (setKd (.unary m op x') r, r, st)
   | .binary m op l r, st =>
     let (l', lt, st) := visit cfg l st
     let (r', rt, st) := visit cfg r st
-    let n := Node.binary m op l' r'
-    let (t, st) := binaryType op lt rt m.loc st
-    (setKd n t, t, st)
+    let (t, st) := orFail (binaryRule cfg.dt op lt rt) m.loc st
+    (setKd (.binary m op l' r') t, t, st)
   | .matches m hasRe l r, st =>
     let (l', lt, st) := visit cfg l st
     let (r', rt, st) := visit cfg r st
-    let n := Node.matches m hasRe l' r'
-    let (t, st) : OTy × CState :=
-      if isStringT lt && isStringT rt then (boolTy, st) else (ifaceTy, st.fail m.loc .mismatchMatches)
-    (setKd n t, t, st)
+    let (t, st) := orFail (matchesRule lt rt) m.loc st
+    (setKd (.matches m hasRe l' r') t, t, st)
   | .prop m x name nilsafe, st =>
     let (x', t, st) := visit cfg x st
-    let n := Node.prop m x' name nilsafe
-    let (r, st) : OTy × CState :=
-      match fieldTypeT cfg.dn t name with
-      | some ft => (some ft, st)
-      | none => if !nilsafe then (ifaceTy, st.fail m.loc .noField) else (none, st)
-    (setKd n r, r, st)
+    let (r, st) := orFail (propRule cfg.dn t name nilsafe) m.loc st
+    (setKd (.prop m x' name nilsafe) r, r, st)
   | .index m x i, st =>
     let (x', t, st) := visit cfg x st
     let (i', it, st) := visit cfg i st
-    let n := Node.index m x' i'
-    let (r, st) : OTy × CState :=
-      match indexTypeT t with
-      | some et =>
-        if !isIndexOk cfg.dt t it then (ifaceTy, st.fail m.loc .badIndex) else (et, st)
-      | none => (ifaceTy, st.fail m.loc .notIndexable)
-    (setKd n r, r, st)
+    let (r, st) := orFail (indexRule cfg.dt t it) m.loc st
+    (setKd (.index m x' i') r, r, st)
   | .slice m x from_ to, st =>
     let (x', t, st) := visit cfg x st
-    if (indexTypeT t).isSome || isStringT t then
-      let (from', fromT, st) := visitOpt cfg from_ st
+    if sliceable cfg.dt t then
+      let (from', fromOk, st) := visitBound cfg from_ st
       -- a non-integer `from` returns at once: `to` is not visited
-      match from', fromT with
-      | some fnode, some ft =>
-        if !isIntegerT ft then
-          let st := st.fail fnode.loc .badSliceIndex
-          (setKd (.slice m x' from' to) ifaceTy, ifaceTy, st)
-        else
-          let (to', toT, st) := visitOpt cfg to st
-          match to', toT with
-          | some tnode, some tt =>
-            if !isIntegerT tt then
-              let st := st.fail tnode.loc .badSliceIndex
-              (setKd (.slice m x' from' to') ifaceTy, ifaceTy, st)
-            else (setKd (.slice m x' from' to') t, t, st)
-          | _, _ => (setKd (.slice m x' from' to') t, t, st)
-      | _, _ =>
-        let (to', toT, st) := visitOpt cfg to st
-        match to', toT with
-        | some tnode, some tt =>
-          if !isIntegerT tt then
-            let st := st.fail tnode.loc .badSliceIndex
-            (setKd (.slice m x' from' to') ifaceTy, ifaceTy, st)
-          else (setKd (.slice m x' from' to') t, t, st)
-        | _, _ => (setKd (.slice m x' from' to') t, t, st)
+      if !fromOk then (setKd (.slice m x' from' to) ifaceTy, ifaceTy, st)
+      else
+        let (to', toOk, st) := visitBound cfg to st
+        if !toOk then (setKd (.slice m x' from' to') ifaceTy, ifaceTy, st)
+        else (setKd (.slice m x' from' to') t, t, st)
     else
       let st := st.fail m.loc .notSliceable
       (setKd (.slice m x' from_ to) ifaceTy, ifaceTy, st)
   | .method m x name args nilsafe, st =>
     let (x', t, st) := visit cfg x st
-    match (methodTypeT cfg.dn t name).bind fun fm => (isFuncType (some fm.1)).map fun fn => (fn, fm.2) with
+    match methodTarget cfg.dn t name with
     | some (fn, isMethod) =>
-      match funcPlan fn isMethod m.loc args.length st with
-      | .done r st => (setKd (.method m x' name args nilsafe) r, r, st)
-      | .args ins variadic numIn offset out =>
+      match funcPlan fn isMethod args.length with
+      | .inl rule =>
+        let (r, st) := orFail rule m.loc st
+        (setKd (.method m x' name args nilsafe) r, r, st)
+      | .inr (ins, variadic, numIn, offset, out) =>
         let (args', ok, st) := checkArgs cfg ins variadic numIn offset 0 args st
         let r : OTy := if ok then some out else ifaceTy
         (setKd (.method m x' name args' nilsafe) r, r, st)
     | none =>
-      let (r, st) : OTy × CState :=
-        if !nilsafe then (ifaceTy, st.fail m.loc .noMethod) else (none, st)
+      let (r, st) := orFail (if !nilsafe then .error .noMethod else .ok none) m.loc st
       (setKd (.method m x' name args nilsafe) r, r, st)
   | .func m name args fast, st =>
-    match (cfg.types.bind fun tbl => tbl.get? name).bind fun g => (isFuncType g.ty).map fun fn => (fn, g.method) with
+    match funcTargetC cfg name with
     | some (fn, isMethod) =>
       let fast' := fastCall fn isMethod
-      match funcPlan fn isMethod m.loc args.length st with
-      | .done r st => (setKd (.func m name args fast') r, r, st)
-      | .args ins variadic numIn offset out =>
+      match funcPlan fn isMethod args.length with
+      | .inl rule =>
+        let (r, st) := orFail rule m.loc st
+        (setKd (.func m name args fast') r, r, st)
+      | .inr (ins, variadic, numIn, offset, out) =>
         let (args', ok, st) := checkArgs cfg ins variadic numIn offset 0 args st
         let r : OTy := if ok then some out else ifaceTy
         (setKd (.func m name args' fast') r, r, st)
     | none =>
-      let (r, st) : OTy × CState :=
-        if !cfg.strict then ((match cfg.defaultType with | some d => some d | none => ifaceTy), st)
-        else (ifaceTy, st.fail m.loc .unknownFunc)
+      let (r, st) := orFail (if !cfg.strict then .ok (defaultOr cfg) else .error .unknownFunc) m.loc st
       (setKd (.func m name args fast) r, r, st)
   | .builtin m name args, st =>
-    match name, args with
-    | "len", a :: rest =>
-      let (a', pt, st) := visit cfg a st
-      let (r, st) : OTy × CState :=
-        if isArrayT pt || isMapT pt || isStringT pt then (intTy, st) else (ifaceTy, st.fail m.loc .badLen)
-      (setKd (.builtin m name (a' :: rest)) r, r, st)
-    | bname, a :: c :: rest =>
-      if bname == "all" || bname == "none" || bname == "any" || bname == "one" || bname == "filter" ||
-         bname == "map" || bname == "count" then
+    match args with
+    | [a] =>
+      if name == "len" then
+        let (a', pt, st) := visit cfg a st
+        let (r, st) := orFail (lenRule pt) m.loc st
+        (setKd (.builtin m name [a']) r, r, st)
+      else
+        let st := st.fail m.loc .unknownBuiltin
+        (setKd (.builtin m name args) ifaceTy, ifaceTy, st)
+    | [a, c] =>
+      if isCollBuiltin name then
         let (a', coll, st) := visit cfg a st
         if !isArrayT coll then
           let st := st.fail a'.loc .notArray
-          (setKd (.builtin m name (a' :: c :: rest)) ifaceTy, ifaceTy, st)
+          (setKd (.builtin m name [a', c]) ifaceTy, ifaceTy, st)
         else
           let st := { st with colls := coll :: st.colls }
           let (c', closure, st) := visit cfg c st
           let st := { st with colls := st.colls.tail }
-          let n := Node.builtin m name (a' :: c' :: rest)
-          let shape : Option Ty :=    -- the closure's result type when it has the expected shape
-            match closure with
-            | some (.func [inT] false [o]) => if inT.kind == .iface then some o else none
-            | _ => none
-          let (r, st) : OTy × CState :=
-            match shape with
-            | some o =>
-              if bname == "map" then (some (.slice o), st)
-              else if !isBoolT (some o) then (ifaceTy, st.fail c'.loc .closureNotBool)
-              else if bname == "filter" then
-                (if isInterfaceT coll then arrayTy else
-                  (match coll with | some ct => (ct.elem?.map Ty.slice) | none => none), st)
-              else if bname == "count" then (intTy, st)
-              else (boolTy, st)
-            | none => (ifaceTy, st.fail c'.loc .badClosure)
-          (setKd n r, r, st)
+          let (r, st) := orFail (collBuiltinRule cfg.dt name coll closure) c'.loc st
+          (setKd (.builtin m name [a', c']) r, r, st)
       else
         let st := st.fail m.loc .unknownBuiltin
         (setKd (.builtin m name args) ifaceTy, ifaceTy, st)
-    | _, _ =>
+    | _ =>
       let st := st.fail m.loc .unknownBuiltin
       (setKd (.builtin m name args) ifaceTy, ifaceTy, st)
   | .closure m x, st =>
     let (x', t, st) := visit cfg x st
     match t with
-    | some bt =>
-      let r : OTy := some (.func [interfaceType] false [bt])
-      (setKd (.closure m x') r, r, st)
+    | some bt => (setKd (.closure m x') (closureType bt), closureType bt, st)
     | none =>
-      -- reflect.FuncOf with a nil result type panics
-      (.closure m x', none, st.setPanic "reflect.FuncOf: nil result type")
+      if cfg.dt.closureNilPanic then
+        -- reflect.FuncOf with a nil result type panics
+        (.closure m x', none, st.setPanic "reflect.FuncOf: nil result type")
+      else (setKd (.closure m x') (closureType interfaceType), closureType interfaceType, st)
   | .pointer m, st =>
-    let (r, st) : OTy × CState :=
-      match st.colls with
-      | [] => (ifaceTy, st.fail m.loc .pointerOutside)
-      | coll :: _ =>
-        match indexTypeT coll with
-        | some et => (et, st)
-        | none => (ifaceTy, st.fail m.loc .pointerNotArray)
+    let (r, st) := orFail (pointerRule st.colls) m.loc st
     (setKd (.pointer m) r, r, st)
   | .cond m c a b, st =>
     let (c', ct, st) := visit cfg c st
@@ -492,36 +574,32 @@ def visit (cfg : CheckCfg) : Node → CState → Node × OTy × CState
     else
       let (a', t1, st) := visit cfg a st
       let (b', t2, st) := visit cfg b st
-      let r : OTy :=
-        match t1, t2 with
-        | none, some y => some y
-        | some x, none => some x
-        | none, none => none
-        | some x, some y => if assignableTo x y then some x else ifaceTy
-      (setKd (.cond m c' a' b') r, r, st)
+      (setKd (.cond m c' a' b') (condType t1 t2), condType t1 t2, st)
   | .array m xs, st =>
-    let (xs', _, st) := visitList cfg xs st
+    let (xs', st) := visitList cfg xs st
     (setKd (.array m xs') arrayTy, arrayTy, st)
   | .map m ps, st =>
-    let (ps', _, st) := visitList cfg ps st
+    let (ps', st) := visitList cfg ps st
     (setKd (.map m ps') mapTy, mapTy, st)
   | .pair m k v, st =>
-    let (k', _, st) := visit cfg k st
+    let (k', kt, st) := visit cfg k st
+    let (_, st) := orFail (pairKeyRule cfg.dt kt) k'.loc st
     let (v', _, st) := visit cfg v st
     (setKd (.pair m k' v') none, none, st)
 
-def visitOpt (cfg : CheckCfg) : Option Node → CState → Option Node × OTy × CState
-  | none, st => (none, none, st)
+/-- a bound of a slice expression: visited when present; must be an integer -/
+def visitBound (cfg : CheckCfg) : Option Node → CState → Option Node × Bool × CState
+  | none, st => (none, true, st)
   | some n, st =>
     let (n', t, st) := visit cfg n st
-    (some n', t, st)
+    if !isIntegerT t then (some n', false, st.fail n'.loc .badSliceIndex) else (some n', true, st)
 
-def visitList (cfg : CheckCfg) : List Node → CState → List Node × List OTy × CState
-  | [], st => ([], [], st)
+def visitList (cfg : CheckCfg) : List Node → CState → List Node × CState
+  | [], st => ([], st)
   | n :: ns, st =>
-    let (n', t, st) := visit cfg n st
-    let (ns', ts, st) := visitList cfg ns st
-    (n' :: ns', t :: ts, st)
+    let (n', _, st) := visit cfg n st
+    let (ns', st) := visitList cfg ns st
+    (n' :: ns', st)
 
 /-- the argument loop of `checkFunc`: `i` is the index of the next argument; stops at the first
 argument that does not fit (the remaining ones are not visited) -/
@@ -532,19 +610,11 @@ def checkArgs (cfg : CheckCfg) (ins : List Ty) (variadic : Bool) (numIn offset :
     let (a', t0, st) := visit cfg a st
     let inT := paramFor ins variadic numIn offset i
     let retype := isIntegerOrArith a && retypeOk cfg.dt inT
-    let t : OTy := if retype then inT else t0
     let a'' := if retype then setTypeForIntegers inT.kind a' else a'
-    match t with
-    | none =>
+    if !argFits (argType cfg.dt a t0 inT) inT then (a'' :: rest, false, st.fail a''.loc .badArgument)
+    else
       let (rest', ok, st) := checkArgs cfg ins variadic numIn offset (i + 1) rest st
       (a'' :: rest', ok, st)
-    | some tt =>
-      let fits : Bool :=
-        (match inT with | some it => assignableTo tt it | none => false) || tt.kind == .iface
-      if !fits then (a'' :: rest, false, st.fail a''.loc .badArgument)
-      else
-        let (rest', ok, st) := checkArgs cfg ins variadic numIn offset (i + 1) rest st
-        (a'' :: rest', ok, st)
 
 end
 
@@ -554,29 +624,37 @@ inductive CheckResult where
   | error (loc : Option Loc) (c : CheckErrClass) (n : Node)
   | panic (msg : String)
 
-/-- `checker.Check`: visit, then the located error and the `expect` test (as written at the snapshot the
-`expect` test came first) -/
+inductive ExpectFail where
+  | mismatch      -- "expected …, but got …" (unlocated)
+  | panic         -- `.Kind()` on a nil `reflect.Type`
+  deriving DecidableEq, Repr
+
+/-- the test of the result directive (`AsBool`: the kind is exactly bool; `AsInt64`/`AsFloat64`: a
+number); `none` = satisfied -/
+def expectTest (dt : TDefects) (e : Expect) (t : OTy) : Option ExpectFail :=
+  match e with
+  | .none => none
+  | .int64 | .float64 => if isNumberT t then none else some .mismatch
+  | .bool =>
+    match t with
+    | none => if dt.nilKindPanic then some .panic else some .mismatch
+    | some tt => if tt.kind == .bool then none else some .mismatch
+
+def ExpectFail.result (n' : Node) : ExpectFail → CheckResult
+  | .mismatch => .error none .expected n'
+  | .panic => .panic "nil Type.Kind()"
+
+/-- `checker.Check`: visit, then the located error and the test of the result directive (at the
+snapshot the directive was tested first, `expectFirst`) -/
 def check (cfg : CheckCfg) (n : Node) : CheckResult :=
   let (n', t, st) := visit cfg n {}
   match st.panic with
   | some msg => .panic msg
   | none =>
-    let expectErr : Option (Option String) :=     -- some none = mismatch error, some (some m) = panic
-      match cfg.expect with
-      | .none => none
-      | .int64 | .float64 => if !isNumberT t then some none else none
-      | .bool =>
-        match t with
-        | none => if cfg.dt.nilKindPanic then some (some "nil Type.Kind()") else some none
-        | some tt => if tt.kind != .bool then some none else none
-    let located : Option CheckResult := st.err.map fun e => .error (some e.1) e.2 n'
-    let expected : Option CheckResult :=
-      match expectErr with
-      | some (some m) => some (.panic m)
-      | some none => some (.error none .expected n')
-      | none => none
-    match (if cfg.dt.expectFirst then expected.orElse (fun _ => located) else located.orElse (fun _ => expected)) with
-    | some r => r
-    | none => .ok n' t
+    match st.err, expectTest cfg.dt cfg.expect t with
+    | none, none => .ok n' t
+    | some e, none => .error (some e.1) e.2 n'
+    | none, some f => f.result n'
+    | some e, some f => if cfg.dt.expectFirst then f.result n' else .error (some e.1) e.2 n'
 
 end ExprModel
